@@ -898,7 +898,28 @@ class Interp:
             left = right
         return result
 
+    def _sym_comp(self, n, fr):
+        """[elt for x in <symbolic-length sequence>] with a single generator and no filter: a symbolic sequence whose
+        i-th element is elt evaluated with x bound to the i-th source element (elt is evaluated lazily, per probe)"""
+        if len(n.generators) != 1 or n.generators[0].ifs:
+            return None
+        g = n.generators[0]
+        it = self.eval(g.iter, fr)
+        seq = self.as_sequence(it)
+        if isinstance(seq, list):
+            return ("concrete", it)
+        base_locals = dict(fr.locals)
+
+        def elem(i, seq=seq, g=g, n=n, fr=fr, base_locals=base_locals):
+            f2 = Frame(fr.fi, fr.module, dict(base_locals), fr.selfcls)
+            self.assign(g.target, seq.elem(i), f2)
+            return self.eval(n.elt, f2)
+        return ("symbolic", SymSeq(seq.n, elem, "list", True, mutable=True))
+
     def ex_ListComp(self, n, fr):
+        r = self._sym_comp(n, fr)
+        if r is not None and r[0] == "symbolic":
+            return r[1]
         out = []
         self._comp(n.generators, 0, fr, lambda f2: out.append(self.eval(n.elt, f2)))
         return PyList(out)
